@@ -159,7 +159,7 @@ func (x *Xlat) havocRegion(st *State, key string) {
 		}
 		ks, _, _ := splitArrSort(s)
 		b := Const("a!", ks)
-		x.ctx.constAxioms[v.Op] = append(x.ctx.constAxioms[v.Op], Forall([]Bind{{"a!", ks}}, Imp(Sel(before, b), Sel(v, b))))
+		x.ctx.constAxioms[v.Op] = append(x.ctx.constAxioms[v.Op], Forall([]Bind{{"a!", ks}}, Imp(Sel(before, b), Sel(v, b)), []*Term{Sel(before, b)}, []*Term{Sel(v, b)}))
 	}
 	st.env[key] = v
 }
